@@ -2,25 +2,28 @@
 from vf import Query
 from common import R_ASSUME
 
-UNITS = ['kit:kitfull.c', 'repo:bignum.c', 'repo:lib/srfi/151/bit.c', 'repo:lib/srfi/95/qsort.c',
+UNITS = ['kit:kitfull.c', 'repo:eval.c', 'repo:bignum.c', 'repo:lib/srfi/151/bit.c', 'repo:lib/srfi/95/qsort.c',
          'repo:lib/srfi/69/hash.c|sexp_string_hash=sexp_string_hash_srfi69', 'kit:env.c', 'kit:exc_models.c', 'kit:libc_models.c']
 UD = {'KIT_REAL_SEXP': 1, 'KIT_GC_MODEL': 1}
 EXC = ['sexp_alloc_tagged_aux', 'sexp_type_exception', 'sexp_xtype_exception', 'sexp_range_exception', 'sexp_user_exception', 'sexp_user_exception_ls']
-CUTS = ['sexp_ratio_[a-z_]*', 'sexp_complex_[a-z_]*', 'sexp_make_ratio', 'sexp_make_complex', 'sexp_double_to_bignum', 'sexp_double_to_ratio[_2]*',
+CUTS = ['sexp_warn', 'sexp_eval.*', 'sexp_analyze.*', 'analyze.*', 'sexp_compile.*', 'sexp_load.*', 'sexp_ratio_[a-z_]*', 'sexp_complex_[a-z_]*', 'sexp_make_ratio', 'sexp_make_complex', 'sexp_double_to_bignum', 'sexp_double_to_ratio[_2]*',
         'sexp_bignum_to_double', 'sexp_inexact_to_exact', 'sexp_bignum_mul', 'sexp_bignum_quot_rem', 'sexp_bignum_expt', 'sexp_bignum_sqrt',
         'sexp_mul', 'sexp_div', 'sexp_quotient', 'sexp_remainder', 'sexp_apply', 'sexp_write_to_string', 'sexp_eval_string', 'sexp_print_exception_op']
 FNS = [(1, 'sexp_append2_op', ['sexp_append2_op', 'sexp_reverse_op', 'sexp_cons_op']), (2, 'sexp_list_to_vector_op', ['sexp_list_to_vector_op', 'sexp_make_vector_op']),
        (3, 'sexp_bit_and[big1,big1]', ['sexp_bit_and', 'sexp_bignum_bit_op', 'sexp_bignum_normalize']), (4, 'sexp_add[fixnum overflow]', ['sexp_add', 'sexp_fixnum_to_bignum', 'sexp_bignum_add_fixnum']),
        (5, 'sexp_bignum_add_fixnum', ['sexp_bignum_add_fixnum', 'sexp_copy_bignum', 'sexp_bignum_fxadd']), (6, 'sexp_sort_x[list of 3]', ['sexp_sort_x', 'sexp_merge_sort', 'sexp_list_to_vector_op']),
        (7, 'sexp_hash_table_cell[create]', ['sexp_hash_table_cell', 'sexp_get_bucket', 'sexp_scan_bucket', 'sexp_regrow_hash_table']),
-       (8, 'sexp_string_concatenate_op', ['sexp_string_concatenate_op', 'sexp_make_string_op', 'sexp_make_bytes_op'])]
+       (8, 'sexp_string_concatenate_op', ['sexp_string_concatenate_op', 'sexp_make_string_op', 'sexp_make_bytes_op']),
+       (9, 'sexp_arithmetic_shift[fixnum << 70]', ['sexp_arithmetic_shift', 'sexp_fixnum_to_bignum']), (10, 'sexp_bit_xor[fixnum,big2]', ['sexp_bit_xor', 'sexp_bignum_bit_op']),
+       (11, 'sexp_substring_op', ['sexp_substring_op', 'sexp_make_string_op']), (12, 'sexp_string_utf8_index_set[width change]', ['sexp_string_utf8_index_set', 'sexp_string_utf8_set', 'sexp_make_bytes_op']),
+       (13, 'sexp_make_ephemeron_op', ['sexp_make_ephemeron_op']), (14, 'sexp_hash_table_cell[create + regrow]', ['sexp_hash_table_cell', 'sexp_regrow_hash_table', 'sexp_get_bucket'])]
 
 
 def queries(tier):
     qs = []
     for fn, nm, funcs in FNS:
         qs.append(Query(name='rooting[%s]' % nm, harness='C02_rooting.c', units=UNITS, unit_defs=UD, defs={'FN': fn}, unwind=12,
-                        unwindset={'kit_gc_referenced.0': 9, 'kit_gc_referenced.1': 13, 'kit_gc_referenced.2': 11, 'kit_gc_referenced.3': 7},
+                        unwindset={'kit_gc_referenced.0': 9, 'kit_gc_referenced.1': 5, 'kit_gc_referenced.2': 13, 'kit_gc_referenced.3': 11, 'kit_gc_referenced.4': 7},
                         remove_bodies=EXC, cuts=CUTS, cap=600, backends=['cadical', 'minisat', 'kissat'], functions=funcs, slow=True))
     return qs
 
